@@ -226,3 +226,29 @@ def run_check(pid, tier, replay=None):
     if ctx.machinery:
         return 2
     return 1 if reported else 0
+
+
+def apalache_inductive(ctx, module_path, init="Init", indinit="IndInit", inv="IndInv", implied=()):
+    """Discharge an inductive invariant with Apalache (unbounded integers): Init => Inv (length 0), Inv /\\ Next => Inv' (length 1),
+    and for every `implied` property Inv => P.  Recorded in the evidence as obligations; a failure is a VIOLATION of the design."""
+    import shutil, tempfile
+    out = tempfile.mkdtemp(prefix="apa-", dir=tlc.WORK)
+    runs = [("base", ["--init=" + init, "--inv=" + inv, "--length=0"]), ("step", ["--init=" + indinit, "--inv=" + inv, "--length=1"])]
+    runs += [("implies:" + p, ["--init=" + indinit, "--inv=" + p, "--length=1"]) for p in implied]
+    ok = 0
+    try:
+        for name, args in runs:
+            p = subprocess.run(["timeout", "600", "apalache-mc", "check"] + args + ["--out-dir=" + out, os.path.basename(module_path)],
+                               cwd=os.path.dirname(module_path), capture_output=True, text=True)
+            good = "EXITCODE: OK" in p.stdout
+            ctx.mc_runs.append(dict(name="apalache:" + name, module=os.path.basename(module_path), ok=good))
+            if good:
+                ok += 1
+            elif "EXITCODE: ERROR (12)" in p.stdout or "Found" in p.stdout and "error" in p.stdout:
+                ctx.violations.append(dict(clause="model:apalache:" + name, at=0, signature=dict(model=os.path.basename(module_path)), trace=dict(output=p.stdout[-1500:])))
+            else:
+                ctx.machinery.append("apalache %s failed: %s" % (name, p.stdout[-600:]))
+    finally:
+        shutil.rmtree(out, ignore_errors=True)
+    ctx.extra["apalache_obligations"] = len(runs)
+    ctx.extra["apalache_discharged"] = ok
